@@ -18,6 +18,7 @@ type ufSliceSpec struct {
 
 type HarnessCfg struct {
 	Name        string
+	QueryTimeoutMs int
 	UFSlice     map[string]ufSliceSpec
 	Cuts        map[string]int
 	UF          map[string]string
@@ -188,6 +189,14 @@ func vrtIntrinsic(ex *Exec, fn *ssa.Function, args []Value, site string) Value {
 			ex.H.UFSlice = map[string]ufSliceSpec{}
 		}
 		ex.H.UFSlice[ex.argStr(args[0])] = ufSliceSpec{ex.argStr(args[1]), ex.argInt(args[2])}
+		return Tuple{}
+	case "QueryTimeout": // QueryTimeout(ms): per-query solver timeout for this harness (0 = default)
+		ex.H.QueryTimeoutMs = ex.argInt(args[0])
+		if ex.H.QueryTimeoutMs > 0 {
+			ex.S.SetTimeout(ex.H.QueryTimeoutMs)
+		} else {
+			ex.S.SetTimeout(ex.S.TimeoutMs)
+		}
 		return Tuple{}
 	case "Unwind":
 		ex.H.Unwind = ex.argInt(args[0])
